@@ -263,6 +263,119 @@ fn lc_regime_exact(b: usize) -> (u64, Vec<Viol>, serde_json::Value) {
     (layers, viols, json!({"b": b, "n_decided_exactly_up_to": last_n, "worst_rms_over_sigma": (worst.0 * 1000.0).round() / 1000.0, "at_n": worst.3, "worst_abs_mean_over_sigma": (worst.1 * 1000.0).round() / 1000.0, "worst_3sigma_tail": (worst.2 * 1e5).round() / 1e5}))
 }
 
+/// Part 4 - exact mean of count() under the Poissonised ideal-hash measure, small precisions.
+/// With N ~ Poisson(lambda * m) distinct elements the m registers are independent, each with
+/// P(V <= v) = exp(-lambda * 2^-v). count() depends on the registers only through the number of zero registers Z
+/// and the harmonic sum; with ranks above J = 14 lumped into rank 14 (relative effect on the sum < 1e-5 for
+/// lambda <= 50) the sum of the non-zero registers is T / 2^J with T an integer, whose exact law for c registers
+/// is the c-fold convolution of the single-register law. E[count] = sum_z Binom(z) sum_t D_{m-z}[t] * count(z, t),
+/// where count(z, t) is evaluated ON THE REAL SKETCH for a register vector realising (z, t). The result is the
+/// Poisson-average over N of the exact bias E[count | N] - N: if the mean error were below eps for every n, so would
+/// this be. It reads every alpha constant and the bias rows of b = 4..8 at a resolution of 1e-4 instead of one sigma.
+fn poisson_exact_mean(b: usize, lambda: f64) -> Result<(u64, f64, f64), String> {
+    const J: usize = 14;
+    let m = 1usize << b;
+    // single-register law
+    let cdf = |v: i32| -> f64 { (-lambda * 2f64.powi(-v)).exp() };
+    let p0 = cdf(0);
+    let mut q = vec![0.0f64; J + 1]; // q[v], v = 1..J, conditional on V > 0
+    for v in 1..=J {
+        let pv = if v < J { cdf(v as i32) - cdf(v as i32 - 1) } else { 1.0 - cdf(J as i32 - 1) };
+        q[v] = pv / (1.0 - p0);
+    }
+    // binomial law of the number of zero registers
+    let mut binom = vec![0.0f64; m + 1];
+    {
+        // log-space to avoid under/overflow
+        let lg = |k: usize| -> f64 { (1..=k).map(|i| (i as f64).ln()).sum() };
+        let lgm = lg(m);
+        for z in 0..=m {
+            let lp = lgm - lg(z) - lg(m - z) + if z > 0 { z as f64 * p0.ln() } else { 0.0 } + if m - z > 0 { (m - z) as f64 * (1.0 - p0).ln() } else { 0.0 };
+            binom[z] = lp.exp();
+        }
+    }
+    let need: Vec<bool> = (0..=m).map(|c| binom[m - c] >= 1e-13).collect();
+    let cmax = (0..=m).rev().find(|&c| need[c]).unwrap_or(0);
+    // convolution chain D_c over T = sum 2^(J - v)
+    let mut d: Vec<f64> = vec![1.0];
+    let mut mean = 0.0f64;
+    let mut mass = 0.0f64;
+    let mut evals = 0u64;
+    let maxrank = J as u8;
+    let panicked: std::cell::RefCell<Option<String>> = std::cell::RefCell::new(None);
+    let eval = |z: usize, c: usize, t: usize, evals: &mut u64| -> f64 {
+        // realise (c terms, each a power of two 2^0..2^(J-1), summing to t): binary digits, then split the largest terms
+        let mut cnt = [0usize; 64];
+        let mut total = 0usize;
+        for e in 0..40 {
+            if (t >> e) & 1 == 1 {
+                cnt[e] = 1;
+                total += 1;
+            }
+        }
+        loop {
+            let top = (0..40).rev().find(|&e| cnt[e] > 0).unwrap_or(0);
+            if top < J && total >= c {
+                break;
+            }
+            if top == 0 {
+                break;
+            }
+            cnt[top] -= 1;
+            cnt[top - 1] += 2;
+            total += 1;
+        }
+        assert_eq!(total, c, "realisation of (c={}, t={}) failed", c, t);
+        let mut regs: Vec<u8> = Vec::with_capacity(z + c);
+        regs.extend(std::iter::repeat(0u8).take(z));
+        for e in 0..J {
+            regs.extend(std::iter::repeat((J - e) as u8).take(cnt[e]));
+        }
+        let _ = maxrank;
+        *evals += 1;
+        // only the call into the code under test is a watched / caught call (the convolution around it is harness work)
+        match mccore::panics::catch(|| build((z + c).trailing_zeros() as usize, regs).count() as f64) {
+            Ok(x) => x,
+            Err(p) => {
+                *panicked.borrow_mut() = Some(p);
+                f64::NAN
+            }
+        }
+    };
+    for c in 0..=cmax {
+        if c > 0 {
+            // d <- d * q
+            let mut nd = vec![0.0f64; d.len() + (1 << (J - 1))];
+            for (t, &pt) in d.iter().enumerate() {
+                if pt < 1e-300 {
+                    continue;
+                }
+                for v in 1..=J {
+                    if q[v] > 0.0 {
+                        nd[t + (1 << (J - v))] += pt * q[v];
+                    }
+                }
+            }
+            d = nd;
+        }
+        if need[c] {
+            let z = m - c;
+            let w = binom[z];
+            for (t, &pt) in d.iter().enumerate() {
+                if pt * w < 1e-14 {
+                    continue;
+                }
+                mean += w * pt * eval(z, c, t, &mut evals);
+                mass += w * pt;
+            }
+        }
+    }
+    if let Some(p) = panicked.borrow().clone() {
+        return Err(p);
+    }
+    Ok((evals, mean / mass / (lambda * m as f64) - 1.0, mass))
+}
+
 fn main() {
     let args = parse_args();
     let mut run = Runner::new("C03", &args.tier, "exploration");
@@ -298,6 +411,43 @@ fn main() {
         }
     }
     run.ev.set("linear_counting_regime_exact", json!(lc_rows));
+    // part 4: exact Poisson-averaged mean for b = 4..6 (thorough ..8)
+    {
+        let lambdas = [0.05, 0.1, 0.2, 0.35, 0.5, 0.7, 1.0, 1.4, 2.0, 2.5, 3.0, 4.0, 5.0, 6.0, 8.0, 10.0, 14.0, 20.0, 30.0, 50.0];
+        let mut pj: Vec<(usize, f64)> = vec![];
+        for b in 4..=(if thorough { 8usize } else { 6 }) {
+            for &l in &lambdas {
+                pj.push((b, l));
+            }
+        }
+        pj.sort_by(|a, b| (b.0, b.1 as u64).cmp(&(a.0, a.1 as u64)));
+        let pres = par_map(&pj, n_threads(), |&(b, l)| poisson_exact_mean(b, l));
+        let mut rows = vec![];
+        let mut n_eval = 0u64;
+        for ((b, l), r) in pj.iter().zip(pres) {
+            match r {
+                Err(p) => run.violation(Viol { property: "C03".into(), signature: format!("hll count panics b={}", b), message: format!("b={} lambda={}: count() panicked on a register vector of ranks <= 14: {}", b, l, p), replay: json!({"b": b, "lambda": l}) }),
+                Ok((ev, bias, mass)) => {
+                    n_eval += ev;
+                    let sigma = 1.03896 / ((1usize << b) as f64).sqrt();
+                    rows.push(json!({"b": b, "lambda=n/m": l, "mean_relative_error": (bias * 1e5).round() / 1e5, "in_units_of_relative_error": ((bias / sigma) * 1e3).round() / 1e3, "count_evaluations": ev, "mass": mass}));
+                    // "a mean close to zero": beyond the small-range corrections (lambda >= 3) the estimator's constants make it
+                    // unbiased to a fraction of a percent (measured <= 0.56 % on the unchanged tree): 1 % + integer effects of two
+                    // units; below, the same 0.35 x relative_error() as in the exact linear-counting part
+                    let nbar = l * (1usize << b) as f64;
+                    let lim = if *l >= 3.0 { 0.01 + 2.0 / nbar } else { 0.35 * sigma + 2.0 / nbar };
+                    if bias.abs() > lim {
+                        run.violation(Viol { property: "C03".into(), signature: format!("hll exact mean (Poisson-averaged) b={}", b), message: format!("b={} n/m={}: the exact mean relative error of count() over the ideal-hash measure (N ~ Poisson({})) is {:+.4} = {:+.3} x relative_error(), limit {:.4}", b, l, nbar, bias, bias / sigma, lim),
+                            replay: json!({"b": b, "lambda": l, "mean_relative_error": bias, "limit": lim, "method": "independent registers P(V<=v)=exp(-lambda 2^-v), ranks > 14 lumped; exact law of (zero registers, harmonic sum) by convolution; count() evaluated on the real sketch for every (z, sum) carrying mass"}) });
+                    }
+                    if std::env::var("VERIF_TIMING").is_ok() { eprintln!("b={} lambda={} bias={:+.5} ({:+.3} sigma) evals={} mass={}", b, l, bias, bias / sigma, ev, mass); }
+                }
+            }
+        }
+        rows.sort_by(|a, b| (a["b"].as_u64(), a["lambda=n/m"].as_f64().map(|x| (x * 100.0) as u64)).cmp(&(b["b"].as_u64(), b["lambda=n/m"].as_f64().map(|x| (x * 100.0) as u64))));
+        run.ev.set("poisson_exact_mean", json!(rows));
+        run.ev.set("poisson_exact_count_evaluations", json!(n_eval));
+    }
     run.ev.set("evaluations", json!(n_abs + n_can + n_lc));
     run.ev.set("distinct_nontrivial", json!(n_abs + n_can - bs.len() as u64));
     run.ev.set("per_precision", json!(per_b));
@@ -307,5 +457,6 @@ fn main() {
     run.ev.set("samples", json!([{"b": 9, "registers_histogram": [[1, 3], [28, 2]], "expectation": "5 occupied registers => count within 1 of 5"}, {"b": 12, "canonical_n": 10240, "registers": "quantiles of the register law", "expectation": "|count - n| - 2 <= 2 sigma n (inside the bump)"}]));
     run.ev.set("rule", json!("every register histogram with up to 1-3 distinct non-zero values from {1,2,3,mid,64-b,64-b+1,255} and counts from {1..8,m/2,m-8,m-1,m}; every n on a x1.02 (quick) / x1.004 (thorough) grid in [0.02m, 50m] for every b; non-trivial = every case except the empty sketch per b"));
     run.ev.assume("canonical configuration = deterministic quantile vector of the exact register law; it probes bias, not variance");
+    run.ev.assume("poisson_exact_mean: N ~ Poisson(lambda m) makes the registers independent; the reported mean is the Poisson-average over N of the exact bias E[count | N] - N (a necessary condition for 'mean close to zero at every n'); ranks above 14 are lumped (relative effect on the harmonic sum < 1e-5 for lambda <= 50)");
     run.finish();
 }
